@@ -611,6 +611,16 @@ def init(table, reload=False):
             if element.neutron is missing:
                 element.neutron = nsf
 
+    # Atoms without an entry get a blank record of their own. The class
+    # default is shared by the atoms of every table, so a value set on it
+    # through one atom would show up on all the others.
+    for element in table:
+        if 'neutron' not in element.__dict__:
+            element.neutron = Neutron()
+        for isotope in element:
+            if 'neutron' not in isotope.__dict__:
+                isotope.neutron = Neutron()
+
     # Gaps in the table for Xe and Eu[151]. Fill them in with guesses from
     # other columns even though they have not been measured directly. The
     # assertions are here so that we remember to remove this code if the
